@@ -95,16 +95,17 @@ def ngPlmn2Op : Handler
     | _, _, _, _ => badOp
   | _ => badOp
 
-/-- `ngsetup <imsi> <mnc>`: ManageNGSetup passes `len(mnc)` -/
+/-- `ngsetup <imsi> <mnc>`: ManageNGSetup passes `len(mnc)`; the NG SETUP RESPONSE is decoded and discarded, so the user
+    location of the later messages names the announced PLMN whatever the AMF lists -/
 def ngSetupOp : Handler
   | [imsi, mnc] =>
     match hexArg imsi, hexArg mnc with
     | some imsi, some mnc =>
       let mncLen : Int := mnc.length
       let m := match Model.Suci.ngSetupFields imsi mncLen with
-        | .ok f => "ok " ++ toHex f.globalGnb ++ " " ++ toHex f.broadcast
+        | .ok f => "ok " ++ toHex f.globalGnb ++ " " ++ toHex f.broadcast ++ " " ++ toHex f.uliNrCgi ++ " " ++ toHex f.uliTai
         | .error e => e.tag
-      (m, plmnSpec imsi mncLen 2)
+      (m, plmnSpec imsi mncLen 4)
     | _, _ => badOp
   | _ => badOp
 
